@@ -12,6 +12,8 @@ import (
 	"os"
 	"os/exec"
 	"reflect"
+	"strings"
+	"sync"
 	"time"
 
 	"github.com/akrennmair/updog"
@@ -644,4 +646,140 @@ func depthOf(e *HExpr) int {
 		}
 	}
 	return d + 1 + m
+}
+
+func init() { commands["record-rpc-conc"] = recordRPCConc }
+
+// record-rpc-conc (C04 d): 16 concurrent RPC clients against a (race-built) `updog server` with its
+// default cache; every result is logged as a Trace_Lib Exec event (the service answers like the
+// library), the server's stderr is scanned for race reports and its liveness checked.
+func recordRPCConc(args []string) error {
+	fs := flag.NewFlagSet("record-rpc-conc", flag.ExitOnError)
+	out := fs.String("out", "", "trace file")
+	seed := fs.Int64("seed", 1, "seed")
+	bin := fs.String("updog", "", "updog binary (race build)")
+	per := fs.Int("per", 30, "requests per client")
+	fs.Parse(args)
+	w, err := vx.NewNDWriter(*out)
+	if err != nil {
+		return err
+	}
+	dir := vx.Scratch("recrpcconc")
+	defer os.RemoveAll(dir)
+	r := &libRec{out: w, rng: rand.New(rand.NewSource(*seed)), dir: dir, hashes: map[string]int{}, paths: map[int]string{}}
+	rng := r.rng
+	d := identDictU(rng, 6, true)
+	os.Setenv("GORACE", "halt_on_error=1 exitcode=66")
+	for cfgI, preload := range []bool{false, true} {
+		r.reset(d)
+		gens := []colGen{
+			{col: 1, present: 1, gen: func(int) int { return 1 + rng.Intn(4) }},
+			{col: 2, present: 0.8, gen: func(int) int { return 1 + rng.Intn(5) }},
+			{col: 3, present: 0.5, gen: func(int) int { return 1 + rng.Intn(2) }},
+		}
+		rows := genDataset(rng, 200+rng.Intn(2000), gens, 0)
+		wr, ok := r.newWriter(1, kinds[cfgI%3])
+		if !ok {
+			continue
+		}
+		r.addRows(1, wr, rows)
+		if !r.flush(1, wr) {
+			continue
+		}
+		srv, err := startServer(*bin, r.path(1), true, preload)
+		if err != nil {
+			return err
+		}
+		mode := "ondemand"
+		if preload {
+			mode = "preload"
+		}
+		w.Emit(map[string]any{"ev": "Open", "p": 1, "mode": mode, "cache": "server-default", "ok": true, "fh": -1})
+		var leaves [][2]int
+		for c := 1; c <= 3; c++ {
+			for v := 1; v <= 6; v++ {
+				leaves = append(leaves, [2]int{c, v})
+			}
+		}
+		eg := &exprGen{rng: rng, leaves: leaves}
+		var pool []vx.Query
+		for k := 0; k < 25; k++ {
+			var gb []int
+			if rng.Intn(3) == 0 {
+				gb = []int{1 + rng.Intn(3)}
+			}
+			pool = append(pool, vx.Query{E: eg.tree(1+rng.Intn(4), 1+rng.Intn(4)), GB: gb})
+		}
+		var mu sync.Mutex
+		var wg sync.WaitGroup
+		seeds := make([]int64, 16)
+		for g := range seeds {
+			seeds[g] = rng.Int63()
+		}
+		var toPBx func(e *vx.Expr) *proto.Query_Expression
+		toPBx = func(e *vx.Expr) *proto.Query_Expression {
+			switch e.Op {
+			case "eq":
+				return &proto.Query_Expression{Value: &proto.Query_Expression_Eq{Eq: &proto.Query_Expression_Equal{Column: d.Col(e.Col), Value: d.Val(e.Val)}}}
+			case "not":
+				return &proto.Query_Expression{Value: &proto.Query_Expression_Not_{Not: &proto.Query_Expression_Not{Expr: toPBx(e.E)}}}
+			case "and":
+				x := &proto.Query_Expression_And{}
+				for _, s := range e.Es {
+					x.Exprs = append(x.Exprs, toPBx(s))
+				}
+				return &proto.Query_Expression{Value: &proto.Query_Expression_And_{And: x}}
+			}
+			x := &proto.Query_Expression_Or{}
+			for _, s := range e.Es {
+				x.Exprs = append(x.Exprs, toPBx(s))
+			}
+			return &proto.Query_Expression{Value: &proto.Query_Expression_Or_{Or: x}}
+		}
+		for g := 0; g < 16; g++ {
+			wg.Add(1)
+			go func(g int) {
+				defer wg.Done()
+				lr := rand.New(rand.NewSource(seeds[g]))
+				for k := 0; k < *per; k++ {
+					var qs []vx.Query
+					req := &proto.QueryRequest{}
+					for n := 1 + lr.Intn(3); n > 0; n-- {
+						q := pool[lr.Intn(len(pool))]
+						qs = append(qs, q)
+						pq := &proto.Query{Expr: toPBx(q.E)}
+						for _, c := range q.GB {
+							pq.GroupBy = append(pq.GroupBy, d.Col(c))
+						}
+						req.Queries = append(req.Queries, pq)
+					}
+					resp, rerr := srv.query(req)
+					mu.Lock()
+					for i, q := range qs {
+						res := vx.Res{Ok: false, Groups: []vx.Group{}}
+						if rerr == nil && i < len(resp.Results) {
+							res = fromPBResult(d, resp.Results[i])
+						}
+						gb := q.GB
+						if gb == nil {
+							gb = []int{}
+						}
+						w.Emit(map[string]any{"ev": "Exec", "p": 1, "e": q.E, "gb": gb, "res": res, "fh": -1, "client": g})
+					}
+					mu.Unlock()
+				}
+			}(g)
+		}
+		wg.Wait()
+		alive := srv.alive()
+		srv.stop()
+		<-srv.done
+		if log := srv.stderr.String(); strings.Contains(log, "DATA RACE") {
+			w.Emit(map[string]any{"ev": "Race", "report": tail(log[strings.Index(log, "WARNING: DATA RACE"):], 3000)})
+		} else if !alive {
+			w.Emit(map[string]any{"ev": "Died", "stderr": tail(log, 2000)})
+		}
+		w.Emit(map[string]any{"ev": "Close", "p": 1, "fh": -1})
+	}
+	return w.Close()
 }
